@@ -2,7 +2,7 @@
 from checks import symgen, refqr, refmicro, refrmqr
 
 ID = 'C05'
-PROP_MODULES = ['QRV.Props.C05', 'QRV.Props.C05Ext', 'QRV.Props.C05TooLarge']
+PROP_MODULES = ['QRV.Props.C05', 'QRV.Props.C05Ext', 'QRV.Props.C05TooLarge', 'QRV.Props.C05TooLarge2', 'QRV.Props.C05TooLargeKanji']
 RULE = ('for every (version, level) row and every mode: payloads of max-1, max, max+1 characters of that row\'s capacity (digits, alphanumerics, bytes, kanji) and mixed-mode payloads '
         'straddling it, x kanji on/off x rMQR priorities {area, height, width}. Oracle: the returned version holds the returned segments by the standard\'s exact bit lengths (kanji per '
         'character), no smaller admissible version (QR: lower number; Micro QR: lower admissible version; rMQR: smaller area / height / width) holds them, and "too large" is answered '
@@ -13,12 +13,12 @@ TRUSTED = [
     'models of calcVersion / segment length tied by correspondence',
 ]
 ASSUMPTIONS = []
-PARTIAL = 'minimality and length_agrees are theorems for QR, Micro QR (lowest admissible version) and rMQR (least height / least width; least area fails: finding D19); the too-large clause is a theorem for QR without kanji (qr_new_not_too_large: a payload that fits version 40 as one byte segment is never refused - exact per-segment accounting of the rounding between the DP costs in sixths of a bit and the true bit lengths); with kanji and for Micro QR / rMQR it is exercised at every capacity boundary'
+PARTIAL = 'minimality and length_agrees are theorems for QR, Micro QR (lowest admissible version) and rMQR (least height / least width; least area fails: finding D19); the too-large clause is a theorem for QR (kanji off: qr_new_not_too_large, exact per-segment accounting of the rounding between the DP costs in sixths of a bit and the true bit lengths; kanji on: qr_new_kanji_not_too_large, by the byte-mode fallback of the repaired source - defect D21), Micro QR and rMQR without kanji (micro_/rmqr_new_not_too_large); Micro QR / rMQR with kanji: exercised at the byte capacity of the largest symbol with rounding-adversarial payloads'
 MANIFEST = {
     'technique': 'Lean 4: calcVersion is a first-fit scan (QR, Micro QR: the minimal version; rMQR: the first fitting entry of an order list whose sortedness by height / width is kernel-evaluated, hence least height / width), model segment length = standard bit length in all three packages; boundary payloads by differential runs',
     'text': ('QRV/Props/C05.lean proves: the model\'s segment length equals the standard\'s bit length for every mode, version and remainder class (kanji per character); QR calcVersion returns a version that '
              'holds the segments and no smaller one does, and 0 only if none of 1..40 does; rMQR calcVersion returns the FIRST entry of the order list of the requested priority that holds them, and the height and '
-             'width lists are sorted by that measure (kernel evaluation), hence a version of least height / width. QRV/Props/C05Ext.lean proves the Micro QR and rMQR length functions equal the standard\'s (mode availability per version, kanji per character), that Micro QR calcVersion returns the lowest version that holds the segments at the level (legal pairs and data bits related to the standard\'s table by kernel evaluation), and that rMQR with priority height / width returns a version of least height / width among ALL versions that hold them. Props/C05TooLarge.lean: QR New (kanji off) reports too large only if the payload does not fit version 40 even as a single byte-mode segment. The area list is NOT sorted by area on the pinned tree (finding D19). Minimality against the '
+             'width lists are sorted by that measure (kernel evaluation), hence a version of least height / width. QRV/Props/C05Ext.lean proves the Micro QR and rMQR length functions equal the standard\'s (mode availability per version, kanji per character), that Micro QR calcVersion returns the lowest version that holds the segments at the level (legal pairs and data bits related to the standard\'s table by kernel evaluation), and that rMQR with priority height / width returns a version of least height / width among ALL versions that hold them. Props/C05TooLarge*.lean: New reports too large only if the payload does not fit the largest symbol even as a single byte-mode segment - QR with and without kanji, Micro QR and rMQR without kanji (the kanji-on QR case was FALSE on the pinned tree: defect D21, found by the proof attempt, repaired by a fix: commit; the counterexample is kept formally in C05TooLarge2). The area list is NOT sorted by area on the pinned tree (finding D19). Minimality against the '
              'independent reference tables and the too-large clause are exercised at every (version, level, mode) capacity boundary.'),
     'note': 'Trusted: Lean kernel; models tied by correspondence; reference capacities (rMQR rows not independent).',
 }
@@ -84,6 +84,33 @@ def gen(ctx):
                 p = b''.join(d for _, d in segs)
                 if len(p) < 3000 or ctx.tier == 'thorough':
                     add(sym, level, r.below(2), r.below(3), p)
+    # the too-large clause at the byte capacity of the largest symbol: payloads of exactly (and one below) the largest
+    # length that fits as ONE byte-mode segment, built from periods on which the mode selection's cost model (sixths of a
+    # bit, rounded up per segment) gains or loses against plain bytes: 1-, 4-, 7-digit runs, 7-/15-character alphanumeric
+    # runs, runs of 2-byte and 3-byte kanji-mode characters separated by single digits
+    al, hi = 'α'.encode(), '日'.encode()
+    periods = [al * 6 + hi + b'1' + al * 10 + b'1', al * 6 + b'1', al * 9 + hi + b'7', hi * 3 + b'12' + al * 5 + b'3',
+               b'a1234', b'ab1234567', b'aABCDEFG', b'a' + b'ABCDEFGHIJKLMNO' + b'b', b'1234ABCDEFG', b'12345678901234567ABCDEFG' + b'x',
+               al * 4 + b'ABCDEFG', b'1' + hi, b'12' + al + b'A']
+    for sym in ('qr', 'mq', 'rm'):
+        ref = symgen.ref(sym)
+        for level in sorted({l for (_, l) in ref.configs()}):
+            nmax = 0
+            for (v, l) in ref.configs():
+                if l == level and 'byte' in ref.kinds_for(v):
+                    n = symgen.fit_single(sym, v, level, 'byte', 0)
+                    nmax = max(nmax, n or 0)
+            if nmax == 0:
+                continue
+            for pi, per in enumerate(periods):
+                if ctx.tier == 'quick' and sym == 'qr' and (pi + level + ctx.seed) % 3 and pi > 0:
+                    continue
+                for n in (nmax, nmax - 1):
+                    body = per * (n // len(per))
+                    pl = (body + b'a' * (n - len(body)))[:n]
+                    for kanji in (0, 1):
+                        for prio in ((0, 1, 2) if sym == 'rm' else (0,)):
+                            add(sym, level, kanji, prio, pl)
     ctx.c05 = meta
     return L
 
